@@ -17,7 +17,8 @@ call is isolated without paying a process per call.
 setup ops    ["db", path] interrogate_request_database      ["mod", {...}] interrogate_request_module
              ["dbmem", latin1-text] the same for a file given by content (memfd; "dbmem" also as key of "mod")
              ["touch"] force loading                         ["dir", d] interrogate_add_search_directory
-query ops    ["c", fname, int...]      call by index / position      -> value
+query ops    any setup op (a further request in the middle of a history)     -> null
+             ["c", fname, int...]      call by index / position      -> value
              ["n", fname, latin1-name] call by name                  -> value
              ["sweep", fname, [i...]] / ["sweep", fname, [[i, [n...]]...]]   many calls of one function -> list
              ["dump", maxidx, maxpos]  every function x 0..maxidx x 0..maxpos-1 -> {fname: value | [..] | [[..]..]}
@@ -150,6 +151,9 @@ class Child:
 
     def query(self, op):
         k = op[0]
+        if k in ("db", "dbmem", "mod", "touch", "dir"):      # a setup op in the middle of a history
+            self.setup(op)
+            return None
         if k == "c":
             return self.call(op[1], *op[2:])
         if k == "n":
